@@ -97,3 +97,152 @@ Proof.
   cbn [app]. rewrite !app_nil_r.
   eexists. rewrite <- !app_assoc. reflexivity.
 Qed.
+
+(* ---------------- C12: lru_to_url rebuilds the url its stems came from ---------------- *)
+Lemma join_cons_ne (sep x : str) (l : list str) : l <> [] -> join sep (x :: l) = x ++ sep ++ join sep l.
+Proof. destruct l; [congruence|reflexivity]. Qed.
+
+Lemma join_split_c_go (c : N) (s cur : str) : join [c] (split_c_go c s cur) = rev cur ++ s.
+Proof.
+  revert cur. induction s as [|x s IH]; intros cur; cbn [split_c_go].
+  - cbn [join]. rewrite app_nil_r. reflexivity.
+  - destruct (x =? c) eqn:E.
+    + apply N.eqb_eq in E. subst x.
+      rewrite join_cons_ne by apply split_c_go_nonempty. rewrite IH. reflexivity.
+    + rewrite IH. cbn [rev]. rewrite <- app_assoc. reflexivity.
+Qed.
+
+Lemma join_split_c (c : N) (s : str) : join [c] (split_c c s) = s.
+Proof. apply join_split_c_go. Qed.
+
+Lemma join_snoc2 (sep : str) (a : list str) (x y : str) : join sep (a ++ [x ++ sep ++ y]) = join sep (a ++ [x; y]).
+Proof.
+  induction a as [|z a IH]; [reflexivity|].
+  cbn [app]. destruct a as [|w a].
+  - cbn [app join]. reflexivity.
+  - cbn [app join] in *. rewrite IH. reflexivity.
+Qed.
+
+Lemma join_cons2 (sep : str) (o l : str) (ls : list str) : join sep ((o ++ sep ++ l) :: ls) = join sep (o :: l :: ls).
+Proof. destruct ls as [|m ls]; cbn [join]; [reflexivity|]. rewrite <- !app_assoc. reflexivity. Qed.
+
+Definition hstep (a : option str) (l : str) : option str := Some (match a with Some o => l ++ [46] ++ o | None => l end).
+Definition pstep (a : option str) (l : str) : option str := Some (match a with Some o => o ++ [47] ++ l | None => l end).
+
+Lemma hfold_some labels o : fold_left hstep labels (Some o) = Some (join [46] (rev labels ++ [o])).
+Proof.
+  revert o. induction labels as [|l ls IH]; intros o; [reflexivity|].
+  cbn [fold_left]. change (hstep (Some o) l) with (Some (l ++ [46] ++ o)). rewrite IH. rewrite join_snoc2. cbn [rev]. rewrite <- app_assoc. reflexivity.
+Qed.
+
+Lemma hfold_none labels : labels <> [] -> fold_left hstep labels None = Some (join [46] (rev labels)).
+Proof. destruct labels as [|l ls]; [congruence|]. intros _. cbn [fold_left]. change (hstep None l) with (Some l). rewrite hfold_some. cbn [rev]. reflexivity. Qed.
+
+Lemma pfold_some segs o : fold_left pstep segs (Some o) = Some (join [47] (o :: segs)).
+Proof.
+  revert o. induction segs as [|l ls IH]; intros o; [reflexivity|].
+  cbn [fold_left]. change (pstep (Some o) l) with (Some (o ++ [47] ++ l)). rewrite IH. rewrite join_cons2. reflexivity.
+Qed.
+
+Lemma pfold_none segs : segs <> [] -> fold_left pstep segs None = Some (join [47] segs).
+Proof. destruct segs as [|l ls]; [congruence|]. intros _. cbn [fold_left]. change (pstep None l) with (Some l). apply pfold_some. Qed.
+
+Lemma cut_tag (c : N) (x : str) : c <> 58 -> cut (length (c :: 58 :: x)) [58] (c :: 58 :: x) [] = Some ([c], x).
+Proof.
+  intros Hc. cbn [length cut starts]. assert (58 =? c = false) as -> by (apply N.eqb_neq; congruence).
+  cbn [andb]. rewrite N.eqb_refl. cbn [andb rev app length drop]. reflexivity.
+Qed.
+
+Lemma index_tagged (c : N) (x : str) (r : list str) (ix : lidx) :
+  c <> 58 -> index_stems ((c :: 58 :: x) :: r) ix = index_stems r (index_one ix [c] x).
+Proof. intros Hc. cbn [index_stems]. rewrite cut_tag by exact Hc. reflexivity. Qed.
+
+Lemma index_hosts labels r ix :
+  index_stems (map (tag "h:") labels ++ r) ix =
+  index_stems r {| i_s := i_s ix; i_t := i_t ix; i_h := fold_left hstep labels (i_h ix); i_p := i_p ix;
+                   i_q := i_q ix; i_f := i_f ix; i_u := i_u ix; i_w := i_w ix |}.
+Proof.
+  revert ix. induction labels as [|l ls IH]; intros ix; cbn [map app fold_left].
+  - destruct ix; reflexivity.
+  - change (tag "h:" l) with (104 :: 58 :: l). rewrite index_tagged by discriminate. rewrite IH. reflexivity.
+Qed.
+
+Lemma index_paths segs r ix :
+  index_stems (map (tag "p:") segs ++ r) ix =
+  index_stems r {| i_s := i_s ix; i_t := i_t ix; i_h := i_h ix; i_p := fold_left pstep segs (i_p ix);
+                   i_q := i_q ix; i_f := i_f ix; i_u := i_u ix; i_w := i_w ix |}.
+Proof.
+  revert ix. induction segs as [|l ls IH]; intros ix; cbn [map app fold_left].
+  - destruct ix; reflexivity.
+  - change (tag "p:" l) with (112 :: 58 :: l). rewrite index_tagged by discriminate. rewrite IH. reflexivity.
+Qed.
+
+(* the round trip on parsed urls without userinfo, for any way the port splitter cuts the netloc into a host and
+   an optional port that re-join to the netloc (what the splitter does is tied to the source by the regex pin and
+   the correspondence) *)
+Theorem stems_round_trip (t : snode) (r : SplitResult) (host : str) (oport : option str) :
+  rcut [64] (netloc r) = None ->
+  re_split PORT_SPLITTER_f PORT_SPLITTER PORT_SPLITTER_g (netloc r) None
+    = Some host :: (match oport with Some p => [Some p] | None => [] end) ->
+  netloc r = host ++ (match oport with Some p => 58 :: p | None => [] end) ->
+  is_special_host host = false ->
+  (path r = [] \/ exists p, path r = 47 :: p) ->
+  lru_to_url_stems (lru_stems_from_parsed t r false) = Ok (urlunsplit r).
+Proof.
+  intros Hu Hsp Hnl Hspecial Hpath.
+  unfold lru_to_url_stems, lru_stems_from_parsed. rewrite Hu, Hsp. cbv zeta.
+  assert (map oget (Some host :: match oport with Some p => [Some p] | None => [] end)
+          = host :: match oport with Some p => [p] | None => [] end) as -> by (destruct oport; reflexivity).
+  rewrite Hspecial. rewrite !app_nil_r.
+  (* scheme stem *)
+  set (hosts := map (tag "h:") (rev (split_c 46 host))).
+  set (paths := map (tag "p:") (tl (split_c 47 (path r)))).
+  set (qs := match query r with [] => [] | q => [tag "q:" q] end).
+  set (fs := match fragment r with [] => [] | f => [tag "f:" f] end).
+  assert (forall ix, index_stems (match scheme r with [] => [] | s => [tag "s:" s] end ++
+                                  match (host :: match oport with Some p => [p] | None => [] end) with [_; port] => [tag "t:" port] | _ => [] end ++
+                                  hosts ++ paths ++ qs ++ fs) ix
+                     = Ok {| i_s := match scheme r with [] => i_s ix | s => Some s end;
+                             i_t := match oport with Some p => Some p | None => i_t ix end;
+                             i_h := fold_left hstep (rev (split_c 46 host)) (i_h ix);
+                             i_p := fold_left pstep (tl (split_c 47 (path r))) (i_p ix);
+                             i_q := match query r with [] => i_q ix | q => Some q end;
+                             i_f := match fragment r with [] => i_f ix | f => Some f end;
+                             i_u := i_u ix; i_w := i_w ix |}) as Hidx.
+  { intros ix.
+    assert (forall ix0, index_stems (qs ++ fs) ix0
+              = Ok {| i_s := i_s ix0; i_t := i_t ix0; i_h := i_h ix0; i_p := i_p ix0;
+                      i_q := match query r with [] => i_q ix0 | q => Some q end;
+                      i_f := match fragment r with [] => i_f ix0 | f => Some f end; i_u := i_u ix0; i_w := i_w ix0 |}) as Hqf.
+    { intros ix0. unfold qs, fs.
+      destruct (query r) as [|qc qr]; destruct (fragment r) as [|fc fr]; cbn [app].
+      - destruct ix0; reflexivity.
+      - change (tag "f:" (fc :: fr)) with (102 :: 58 :: fc :: fr). rewrite index_tagged by discriminate. destruct ix0; reflexivity.
+      - change (tag "q:" (qc :: qr)) with (113 :: 58 :: qc :: qr). rewrite index_tagged by discriminate. destruct ix0; reflexivity.
+      - change (tag "q:" (qc :: qr)) with (113 :: 58 :: qc :: qr). rewrite index_tagged by discriminate.
+        change (tag "f:" (fc :: fr)) with (102 :: 58 :: fc :: fr). rewrite index_tagged by discriminate. destruct ix0; reflexivity. }
+    assert (forall ix0, index_stems (hosts ++ paths ++ qs ++ fs) ix0
+              = Ok {| i_s := i_s ix0; i_t := i_t ix0; i_h := fold_left hstep (rev (split_c 46 host)) (i_h ix0);
+                      i_p := fold_left pstep (tl (split_c 47 (path r))) (i_p ix0);
+                      i_q := match query r with [] => i_q ix0 | q => Some q end;
+                      i_f := match fragment r with [] => i_f ix0 | f => Some f end; i_u := i_u ix0; i_w := i_w ix0 |}) as Hhp.
+    { intros ix0. unfold hosts, paths. rewrite index_hosts, index_paths, Hqf. reflexivity. }
+    destruct (scheme r) as [|sc sr]; destruct oport as [p|]; cbn [app].
+    - change (tag "t:" p) with (116 :: 58 :: p). rewrite index_tagged by discriminate. rewrite Hhp. destruct ix; reflexivity.
+    - rewrite Hhp. destruct ix; reflexivity.
+    - change (tag "s:" (sc :: sr)) with (115 :: 58 :: sc :: sr). rewrite index_tagged by discriminate.
+      change (tag "t:" p) with (116 :: 58 :: p). rewrite index_tagged by discriminate. rewrite Hhp. destruct ix; reflexivity.
+    - change (tag "s:" (sc :: sr)) with (115 :: 58 :: sc :: sr). rewrite index_tagged by discriminate. rewrite Hhp. destruct ix; reflexivity. }
+  rewrite Hidx. cbn [bind]. unfold url_of_index, lidx0. cbn [i_s i_t i_h i_p i_q i_f i_u i_w].
+  (* the host *)
+  rewrite hfold_none by (intros E; apply (f_equal (@rev str)) in E; rewrite rev_involutive in E; cbn in E; eapply split_c_nonempty; exact E).
+  rewrite rev_involutive, join_split_c. cbn [oget app].
+  (* the path *)
+  assert (match fold_left pstep (tl (split_c 47 (path r))) None with Some p => 47 :: p | None => [] end = path r) as ->.
+  { destruct Hpath as [E|[p E]]; rewrite E.
+    - reflexivity.
+    - unfold split_c. cbn [split_c_go]. rewrite N.eqb_refl. cbn [tl rev].
+      rewrite pfold_none by apply split_c_go_nonempty. fold (split_c 47 p). rewrite join_split_c. reflexivity. }
+  f_equal. destruct r as [sch nl pth q f]. cbn [scheme netloc path query fragment] in *.
+  subst nl. destruct sch, q, f, oport; cbn [oget]; rewrite ?app_nil_r; reflexivity.
+Qed.
